@@ -40,6 +40,8 @@ func Main(args []string) int {
 		return mainReplay(args[1:])
 	case "free":
 		return mainFree(args[1:])
+	case "fold":
+		return mainFold(args[1:])
 	case "probe-hostcheck":
 		return mainProbe(args[1:])
 	}
